@@ -1,6 +1,7 @@
 package main
 
 import (
+	"go/constant"
 	"go/token"
 	"go/types"
 	"sort"
@@ -1133,6 +1134,16 @@ var _ = late(func() {
 									continue
 								}
 								n++
+								// return s.outcomeErr(ctx, outcome) with outcome a constant on the way from the sending arm: the
+								// helper's returns that this constant selects
+								if sel, ok := constSelectedReturns(vr.val, a.body); ok {
+									allNil := len(sel) > 0
+									for _, v := range sel {
+										allNil = allNil && isNilConst(v)
+									}
+									r.ok(allNil, "stream.PipeSender.Send|sent-arm-return#"+itoa(n), retPos(ret), "the path on which the value was handed to the receiver returns "+path(vr.val)+", which is not nil for the outcome that path passes: a delivered value is reported as failed")
+									continue
+								}
 								r.ok(isNilConst(vr.val), "stream.PipeSender.Send|sent-arm-return#"+itoa(n), retPos(ret), "the path on which the value was handed to the receiver returns "+path(vr.val)+" instead of nil: a delivered value is reported as failed when the context has expired by then (the caller re-sends it, the receiver gets it twice)")
 							}
 						})
@@ -1144,3 +1155,86 @@ var _ = late(func() {
 			}
 		}})
 })
+
+// constSelectedReturns: v is a call of an in-package helper some of whose arguments are constants on the way from block `from`
+// (a constant, or a merge whose edges that come from `from` all carry the same constant): the values the helper can return
+// (last result) on the paths whose parameter-against-constant guards do not fold to false for those constants. ok is false
+// when v is not such a call or no argument is a constant.
+func constSelectedReturns(v ssa.Value, from *ssa.BasicBlock) ([]ssa.Value, bool) {
+	call, ok := v.(*ssa.Call)
+	if !ok {
+		return nil, false
+	}
+	cal := staticCallee(&call.Call)
+	if cal == nil || cal.Blocks == nil || rootFn(cal).Pkg != rootFn(call.Parent()).Pkg || cal.Signature.Results().Len() == 0 {
+		return nil, false
+	}
+	bound := map[*ssa.Parameter]*ssa.Const{}
+	for k, a := range call.Call.Args {
+		if k >= len(cal.Params) {
+			break
+		}
+		switch x := a.(type) {
+		case *ssa.Const:
+			bound[cal.Params[k]] = x
+		case *ssa.Phi:
+			var k0 *ssa.Const
+			same := true
+			for i, e := range x.Edges {
+				pb := x.Block().Preds[i]
+				if !(pb == from || reaches(from, pb)) {
+					continue
+				}
+				kc, isK := e.(*ssa.Const)
+				if !isK || kc.Value == nil || (k0 != nil && !constant.Compare(k0.Value, token.EQL, kc.Value)) {
+					same = false
+					break
+				}
+				k0 = kc
+			}
+			if same && k0 != nil {
+				bound[cal.Params[k]] = k0
+			}
+		}
+	}
+	if len(bound) == 0 {
+		return nil, false
+	}
+	last := cal.Signature.Results().Len() - 1
+	var out []ssa.Value
+	instrs(cal, func(b *ssa.BasicBlock, _ int, in ssa.Instruction) {
+		ret, ok := in.(*ssa.Return)
+		if !ok || len(ret.Results) == 0 {
+			return
+		}
+		for _, vr := range virtualReturnsOf(ret, last) {
+			feasible := true
+			for _, g := range guardsOfRaw(vr.blk) {
+				cf, ok := g.asCmp()
+				if !ok {
+					continue
+				}
+				x, y, op := cf.x, cf.y, cf.op
+				if _, isK := x.(*ssa.Const); isK {
+					x, y, op = y, x, flip(op)
+				}
+				ky, okY := y.(*ssa.Const)
+				px, okX := resolveVal(x).(*ssa.Parameter)
+				if !okX || !okY || ky.Value == nil {
+					continue
+				}
+				kx := bound[px]
+				if kx == nil || kx.Value == nil || kx.Value.Kind() != ky.Value.Kind() {
+					continue
+				}
+				if !constant.Compare(kx.Value, op, ky.Value) {
+					feasible = false
+				}
+			}
+			if feasible {
+				out = append(out, vr.val)
+			}
+		}
+	})
+	return out, true
+}
